@@ -211,6 +211,14 @@ func check(cfg *Config, prop string, writeEvidence bool) int {
 	knownPrinted := map[*Finding]bool{}
 	seenNew := map[string]bool{}
 	for _, r := range results {
+		if r.H.Opts["claims"] == "none" {
+			// nothing is claimed by this harness: solver errors after a hard time-out / restart are
+			// recorded as undecided as well
+			for _, e := range r.Errors {
+				r.Undecided = append(r.Undecided, "engine error: "+e)
+			}
+			r.Errors = nil
+		}
 		for _, e := range r.Errors {
 			inconc = append(inconc, "engine error: "+e)
 		}
